@@ -6,7 +6,7 @@ From FT.lib Require Import Num Arr ArrLemmas Lower NumArr.
 From FT.gen Require Import Common Fteik2d Fteik3d.
 From FT.gen Require Import Interp2d Interp3d FteikCommon Ray2d Ray3d.
 From FT.proofs Require Import Solve2dProofs Solve3dProofs VectorizedProofs Ray2dProofs.
-From FT.proofs Require Ray3dProofs.
+From FT.proofs Require Ray3dProofs RayBudget.
 Import ListNotations.
 Open Scope Z_scope.
 
@@ -164,6 +164,61 @@ Theorem C13_list_ray3d_raises_like_first_failing_single :
              (get (nofZ 0) yend [i]) zsrc xsrc ysrc stepsize max_step hg = Ok rc) (pyrange 0 (dim zend 0) 1) l).
 Proof. exact @Ray3dProofs.ray3d_list_raises_like_first_failing_single. Qed.
 
+(* a ray that is returned with c+1 rows is returned for every budget > c and raises RuntimeError for every budget <= c: exhaustion is reported by raising, never by a shortened ray (every numeric instance, both modes) *)
+Theorem C13_ray_budget_raises_iff_insufficient_2d :
+  forall (T : Type) (H : Num T) (z x zgrad xgrad p src : arr T) (stepsize : T) (hg : bool) 
+         (M : Z) (fuel : nat) (r : arr T),
+       ray2d_1 fuel z x zgrad xgrad p src stepsize M hg = Ok r ->
+       exists c : Z,
+         1 <= c < M /\
+         shape r = [c + 1; 2] /\
+         (forall (M' : Z) (fuel' : nat),
+          c < M' ->
+          (fuel <= fuel')%nat \/ RayBudget.enough2 z x stepsize M' fuel' ->
+          ray2d_1 fuel' z x zgrad xgrad p src stepsize M' hg = Ok r) /\
+         (forall (M'' : Z) (fuel'' : nat),
+          M'' <= c ->
+          (fuel <= fuel'')%nat \/ RayBudget.enough2 z x stepsize M'' fuel'' ->
+          ray2d_1 fuel'' z x zgrad xgrad p src stepsize M'' hg = Raise RuntimeError).
+Proof. exact @RayBudget.ray2d_1_budget. Qed.
+
+(* 3D *)
+Theorem C13_ray_budget_raises_iff_insufficient_3d :
+  forall (T : Type) (H : Num T) (z x y zgrad xgrad ygrad p src : arr T) (stepsize : T) 
+         (hg : bool) (M : Z) (fuel : nat) (r : arr T),
+       ray3d_1 fuel z x y zgrad xgrad ygrad p src stepsize M hg = Ok r ->
+       exists c : Z,
+         1 <= c < M /\
+         shape r = [c + 1; 3] /\
+         (forall (M' : Z) (fuel' : nat),
+          c < M' ->
+          (fuel <= fuel')%nat \/ RayBudget.enough3 z x y stepsize M' fuel' ->
+          ray3d_1 fuel' z x y zgrad xgrad ygrad p src stepsize M' hg = Ok r) /\
+         (forall (M'' : Z) (fuel'' : nat),
+          M'' <= c ->
+          (fuel <= fuel'')%nat \/ RayBudget.enough3 z x y stepsize M'' fuel'' ->
+          ray3d_1 fuel'' z x y zgrad xgrad ygrad p src stepsize M'' hg = Raise RuntimeError).
+Proof. exact @RayBudget.ray3d_1_budget. Qed.
+
+(* the out-of-hull outcome (ValueError) does not depend on the budget *)
+Theorem C13_ray_outside_hull_independent_of_budget_2d :
+  forall (T : Type) (H : Num T) (z x zgrad xgrad : arr T) (zend xend zsrc xsrc stepsize : T) 
+         (hg : bool) (M : Z) (fuel : nat) (ray : arr T),
+       u_ray2d_core_v fuel z x zgrad xgrad zend xend zsrc xsrc stepsize M hg = Ok (ray, -1) ->
+       forall (M' : Z) (fuel' : nat),
+       u_ray2d_core_v fuel' z x zgrad xgrad zend xend zsrc xsrc stepsize M' hg = Ok (full [M'; 2] (nofZ 0), -1).
+Proof. exact @RayBudget.ray2d_outside_budget_free. Qed.
+
+(* 3D *)
+Theorem C13_ray_outside_hull_independent_of_budget_3d :
+  forall (T : Type) (H : Num T) (z x y zgrad xgrad ygrad : arr T) (zend xend yend zsrc xsrc ysrc stepsize : T)
+         (hg : bool) (M : Z) (fuel : nat) (ray : arr T),
+       u_ray3d_core_v fuel z x y zgrad xgrad ygrad zend xend yend zsrc xsrc ysrc stepsize M hg = Ok (ray, -1) ->
+       forall (M' : Z) (fuel' : nat),
+       u_ray3d_core_v fuel' z x y zgrad xgrad ygrad zend xend yend zsrc xsrc ysrc stepsize M' hg =
+       Ok (full [M'; 3] (nofZ 0), -1).
+Proof. exact @RayBudget.ray3d_outside_budget_free. Qed.
+
 Print Assumptions C13_single_solve2d_raises_iff_outside.
 Print Assumptions C13_single_solve3d_raises_iff_outside.
 Print Assumptions C13_list_solve2d_spec.
@@ -174,3 +229,7 @@ Print Assumptions C13_single_ray2d_value_error_iff_outside.
 Print Assumptions C13_list_ray2d_spec.
 Print Assumptions C13_list_ray2d_raises_like_first_failing_single.
 Print Assumptions C13_list_ray3d_raises_like_first_failing_single.
+Print Assumptions C13_ray_budget_raises_iff_insufficient_2d.
+Print Assumptions C13_ray_budget_raises_iff_insufficient_3d.
+Print Assumptions C13_ray_outside_hull_independent_of_budget_2d.
+Print Assumptions C13_ray_outside_hull_independent_of_budget_3d.
